@@ -30,10 +30,15 @@ class Scratch:
         return self.path
 
     def __exit__(self, *a):
-        shutil.rmtree(self.path, ignore_errors=True)
+        self.cleanup()
 
     def cleanup(self):
-        shutil.rmtree(self.path, ignore_errors=True)
+        try:
+            shutil.rmtree(self.path, ignore_errors=True)
+        except Exception:
+            pass          # e.g. RecursionError for a tree unpacked thousands of levels deep
+        if os.path.exists(self.path):
+            subprocess.run(["rm", "-rf", self.path], stdout=subprocess.DEVNULL, stderr=subprocess.DEVNULL)
 
 
 def rng_for(*parts):
